@@ -127,6 +127,22 @@ S(id="X.diff.native", props=["C16"], spec="native/cxx_diff.cpp", mode="N", cc="c
   what="class yaep (libyaep++) and the C functions (libyaep) give the same return codes, error codes and messages, syntax_error callbacks, ambiguity flags, trees (types, names, costs, codes, attributes, sharing) "
        "and the same parse_free / termcb calls in free_tree, with no block left")
 
+XX_REC = [("yaep_create_grammar", "rec_create"), ("yaep_free_grammar", "rec_free"), ("yaep_error_code", "rec_error_code"), ("yaep_error_message", "rec_error_message"),
+          ("yaep_read_grammar", "rec_read_grammar"), ("yaep_parse_grammar", "rec_parse_grammar"), ("yaep_set_lookahead_level", "rec_set_lookahead"),
+          ("yaep_set_debug_level", "rec_set_debug"), ("yaep_set_one_parse_flag", "rec_set_one_parse"), ("yaep_set_cost_flag", "rec_set_cost"),
+          ("yaep_set_error_recovery_flag", "rec_set_recovery"), ("yaep_set_recovery_match", "rec_set_match"), ("yaep_parse", "rec_parse"), ("yaep_free_tree", "rec_free_tree")]
+# ---------------- C16: interface layer of yaep.cpp (staging rule R9) ----------------
+for _m, _cf, _rec in [("ctor", "yaep_create_grammar", "rec_create"), ("dtor", "yaep_free_grammar", "rec_free"), ("error_code", "yaep_error_code", "rec_error_code"),
+                      ("error_message", "yaep_error_message", "rec_error_message"), ("read_grammar", "yaep_read_grammar", "rec_read_grammar"),
+                      ("parse_grammar", "yaep_parse_grammar", "rec_parse_grammar"), ("set_lookahead_level", "yaep_set_lookahead_level", "rec_set_lookahead"),
+                      ("set_debug_level", "yaep_set_debug_level", "rec_set_debug"), ("set_one_parse_flag", "yaep_set_one_parse_flag", "rec_set_one_parse"),
+                      ("set_cost_flag", "yaep_set_cost_flag", "rec_set_cost"), ("set_error_recovery_flag", "yaep_set_error_recovery_flag", "rec_set_recovery"),
+                      ("set_recovery_match", "yaep_set_recovery_match", "rec_set_match"), ("parse", "yaep_parse", "rec_parse"), ("free_tree", "yaep_free_tree", "rec_free_tree")]:
+    S(id="X.fwd." + _m, props=["C16"], spec="cxx.spec.c", harness="h_xx_" + _m, mode="L", enforce=["yaepxx_%s/xx_%s_c" % (_m, _m)],
+      replace=["%s/%s" % (c, r) for c, r in XX_REC],
+      functions=["yaep::%s (yaep.cpp, extracted to C by staging rule R9; body verbatim)" % {"ctor": "yaep", "dtor": "~yaep"}.get(_m, _m)],
+      what="the member calls %s, and no other function of the C interface, exactly once, on the wrapped grammar object, with its own arguments in order; returns its result; assigns nothing else" % _cf)
+
 # ---------------- C15 / C14 / C17: yaep_parse ----------------
 PARSE_REPL = ["verif_error_exit/err_c", "tok_init/tok_init_c", "read_toks/read_toks_c", "yaep_parse_init/parse_init_c", "build_pl/build_pl_c",
               "make_parse/make_parse_c", "yaep_parse_fin/parse_fin_c", "tok_fin/tok_fin_c"]
